@@ -87,6 +87,7 @@ def check(prog: Program, run: Run) -> None:
     _emplace_paths(prog, run)
     _backend(prog, run)
     _strings(prog, run)
+    _terminator_width(prog, run)
     from . import c01
     from .common import run_as
     run_as(run, "C01.R7", "C02.R6", lambda r: c01._terminator(prog, r))
@@ -408,6 +409,154 @@ def _siblings(prog: Program, run: Run) -> None:
             run.violation(R, f.qual, "advance-formula",
                           "the encoder skips a different number of bytes than the decoder "
                           "consumes for this parameter", f.loc)
+    _atomic_sites(prog, run, R)
+    _sized_extent(prog, run, R)
+
+
+def _sized_extent(prog: Program, run: Run, R: str = "C02.R2") -> None:
+    """BYTE-SIZE: the extent of a structure is measured from the cursor position at which the
+    structure starts (saved before its content is processed), in encoder and decoder alike."""
+    for nm, callee in (("encode_into_pdu", "composite_codec_encode_into_pdu"),
+                       ("decode_from_pdu", "composite_codec_decode_from_pdu")):
+        f = prog.func(f"BasicStructure.{nm}")
+        C = f"BasicStructure.{nm}"
+        state = f.params()[-1]
+        cfg = CFG(f.node)
+        calls = [x for x in walk_no_nested(f.node) if isinstance(x, ast.Call) and
+                 call_name(x) == callee]
+        subs = [x for x in walk_no_nested(f.node) if isinstance(x, ast.BinOp) and isinstance(
+            x.op, ast.Sub) and ast.unparse(x.left) == f"{state}.cursor_byte_position" and
+            isinstance(x.right, ast.Name)]
+        if not calls or not subs:
+            raise AnalysisError(f"{C}: content call / extent computation not found")
+        call_node = cfg.node_of(_stmt_of(f.node, calls[0]))
+        for sb in subs:
+            base = sb.right.id
+            defs = [x for x in walk_no_nested(f.node) if isinstance(x, ast.Assign) and
+                    ast.unparse(x.targets[0]) == base]
+            good = len(defs) == 1 and ast.unparse(defs[0].value) == \
+                f"{state}.cursor_byte_position" and cfg.dominates(cfg.node_of(defs[0]), call_node)
+            if good:
+                run.ok(R, C, f"extent = cursor - `{base}`, where `{base}` is the cursor saved "
+                       "before the content is processed", f"{f.module.rel}:{sb.lineno}")
+            else:
+                src = ast.unparse(defs[0].value) if defs else "?"
+                run.violation(R, C, "extent-base",
+                              f"the extent of the structure is measured from `{base} = {src}`, "
+                              "not from the cursor position at which the structure starts: a "
+                              "sized structure that does not begin at its parent's origin is "
+                              "padded / skipped by the wrong number of bytes",
+                              f"{f.module.rel}:{sb.lineno}", stmt_key(defs[0]) if defs else "")
+
+
+def _stmt_of(fn: ast.AST, x: ast.AST) -> ast.stmt:
+    best = None
+    for st in walk_no_nested(fn):
+        if isinstance(st, ast.stmt) and st is not fn and not isinstance(
+                st, (ast.If, ast.For, ast.While, ast.Try, ast.With)) and any(
+                    z is x for z in ast.walk(st)):
+            best = st
+    if best is None:
+        raise AnalysisError("expression without simple statement")
+    return best
+
+
+def _terminator_width(prog: Program, run: Run, R: str = "C02.R5") -> None:
+    """The terminator is as wide as a code unit of the BASE DATA TYPE (two bytes exactly for
+    A_UNICODE2STRING); the optional BASE-TYPE-ENCODING must not decide it."""
+    ci = prog.cls("MinMaxLengthType")
+    f = None
+    for nm, m in ci.methods.items():
+        if nm.endswith("termination_sequence"):
+            f = m
+    if f is None:
+        raise AnalysisError("MinMaxLengthType.__termination_sequence not found")
+    tests = [x.test for x in walk_no_nested(f.node) if isinstance(x, ast.If)]
+    by_type = [t for t in tests if "base_data_type" in ast.unparse(t) and
+               "A_UNICODE2STRING" in ast.unparse(t)]
+    by_enc = [t for t in tests if "base_type_encoding" in ast.unparse(t)]
+    if by_enc:
+        run.violation(R, f.qual, "terminator-width-by-encoding",
+                      f"`{ast.unparse(by_enc[0])}` makes the width of the terminator depend on "
+                      "BASE-TYPE-ENCODING: an A_UNICODE2STRING without explicit encoding gets a "
+                      "one-byte terminator (and a non-UCS2 type with that encoding a two-byte "
+                      "one), so encoder / decoder disagree with the ODX layout",
+                      f"{f.module.rel}:{by_enc[0].lineno}", ast.unparse(by_enc[0]))
+    elif by_type:
+        run.ok(R, f.qual, "two-byte terminator exactly for A_UNICODE2STRING", f.loc)
+    else:
+        run.violation(R, f.qual, "terminator-width", "the terminator width does not depend on "
+                      "the base data type (A_UNICODE2STRING needs two bytes)", f.loc)
+
+
+def _atomic_sites(prog: Program, run: Run, R: str = "C02.R2") -> None:
+    """Every call of the two atomic primitives passes the whole description explicitly, and the
+    encoder and the decoder of one class describe the value the same way."""
+    KW = ("bit_length", "base_data_type", "base_type_encoding", "is_highlow_byte_order")
+    for spec in ("EncodeState.emplace_atomic_value", "DecodeState.extract_atomic_value"):
+        f = prog.func(spec)
+        a = f.node.args
+        kwo = {x.arg: d for x, d in zip(a.kwonlyargs, a.kw_defaults)}
+        pos = [x.arg for x in a.args]
+        npos_def = len(a.defaults)
+        for k in KW:
+            has_default = (k in kwo and kwo[k] is not None) or (
+                k in pos and pos.index(k) >= len(pos) - npos_def)
+            if has_default:
+                run.violation(R, spec, f"default-{k}",
+                              f"`{k}` has a default value: a call site that forgets it silently "
+                              "encodes / decodes with the default instead of the object's "
+                              "description", f.loc)
+            else:
+                run.ok(R, spec, f"`{k}` must be given by every caller", f.loc)
+    sites: Dict[str, Dict[str, List[Tuple[ast.Call, Dict[str, str]]]]] = {}
+    n = 0
+    for f in prog.iter_functions():
+        if not f.module.rel.startswith("odxtools/"):
+            continue
+        for x in walk_no_nested(f.node):
+            if isinstance(x, ast.Call) and call_name(x) in ("emplace_atomic_value",
+                                                            "extract_atomic_value"):
+                n += 1
+                kws = {k.arg: " ".join(ast.unparse(k.value).split()) for k in x.keywords if k.arg}
+                where = f"{f.module.rel}:{x.lineno}"
+                missing = [k for k in KW if k not in kws]
+                if missing:
+                    run.violation(R, f.qual, f"site-omits-{missing[0]}",
+                                  f"`{call_name(x)}(...)` does not pass {missing}: the value is "
+                                  "coded with a default instead of this object's description "
+                                  "(the sibling direction passes it)", where)
+                else:
+                    run.ok(R, f.qual, f"{call_name(x)} gets the full description", where)
+                if f.cls is not None:
+                    sites.setdefault(f.cls.name, {}).setdefault(call_name(x), []).append((x, kws))
+    if n < 10:
+        run.error(R, f"only {n} call sites of the atomic primitives found")
+    for cname, d in sorted(sites.items()):
+        enc = [k for _c, k in d.get("emplace_atomic_value", [])
+               if k.get("base_data_type") == "self.base_data_type"]
+        dec = [k for _c, k in d.get("extract_atomic_value", [])
+               if k.get("base_data_type") == "self.base_data_type"]
+        if not enc or not dec:
+            # all value sites of one direction must still agree among themselves
+            for grp in (enc, dec):
+                tup = {(k.get("base_type_encoding"), k.get("is_highlow_byte_order")) for k in grp}
+                if len(tup) > 1:
+                    run.violation(R, cname, "value-sites-disagree",
+                                  f"the value is described differently at different call sites: "
+                                  f"{sorted(map(str, tup))}", d[next(iter(d))][0][0].lineno and
+                                  prog.cls(cname).loc)
+            continue
+        te = {(k.get("base_type_encoding"), k.get("is_highlow_byte_order")) for k in enc}
+        td = {(k.get("base_type_encoding"), k.get("is_highlow_byte_order")) for k in dec}
+        if te == td and len(te) == 1:
+            run.ok(R, cname, "encoder and decoder pass the same (encoding, byte order) for the "
+                   f"value: {sorted(te)[0]}", prog.cls(cname).loc)
+        else:
+            run.violation(R, cname, "encoder-decoder-description",
+                          f"the encoder codes the value with (encoding, byte order) = "
+                          f"{sorted(map(str, te))}, the decoder with {sorted(map(str, td))}: the "
+                          "bytes written are not the bytes read", prog.cls(cname).loc)
 
 
 # ----------------------------------------------------------------------- R3
